@@ -673,6 +673,120 @@ func leanProg(ps []pstmt, rel map[string]bool) string {
 	return rest
 }
 
+// ---------------------------------------------------------------- count-driven loops and additive readers
+
+type cloop struct {
+	fn, bound, source string
+	reads             bool // the loop body reads from the stream (consumes input per iteration)
+}
+
+var cloops []cloop
+var additive []string // Read methods that Put / append into a table of the receiver they never reset
+
+// loopsIn lists the `for i := 0; i < n; i++` loops whose bound carries a decoded value
+func (st *fnState) loopsIn(body *ast.BlockStmt) {
+	ast.Inspect(body, func(n ast.Node) bool {
+		f, ok := n.(*ast.ForStmt)
+		if !ok || f.Cond == nil {
+			return true
+		}
+		be, ok := f.Cond.(*ast.BinaryExpr)
+		if !ok || (be.Op != token.LSS && be.Op != token.LEQ) {
+			return true
+		}
+		v := convOf(be.Y)
+		src, ok2 := st.source[v]
+		if v == "" || !ok2 || src == "parameter" {
+			return true
+		}
+		reads := readSource(f.Body) != ""
+		if !reads { // a helper that is handed the stream reads from it
+			ast.Inspect(f.Body, func(m ast.Node) bool {
+				if c, ok := m.(*ast.CallExpr); ok {
+					for _, a := range c.Args {
+						if id, ok := a.(*ast.Ident); ok && (id.Name == "in" || id.Name == "din" || id.Name == "dinx") {
+							reads = true
+						}
+					}
+				}
+				return true
+			})
+		}
+		cloops = append(cloops, cloop{st.fn, v, src, reads})
+		return true
+	})
+}
+
+// additiveReader: a `Read` method that, inside a loop, calls this.<f>.Put/Add… or appends to this.<f>
+// without assigning this.<f> a fresh value anywhere in the method
+func additiveReader(fd *ast.FuncDecl) (string, bool) {
+	if fd.Name.Name != "Read" || fd.Recv == nil || len(fd.Recv.List) != 1 || len(fd.Recv.List[0].Names) != 1 {
+		return "", false
+	}
+	recv := fd.Recv.List[0].Names[0].Name
+	fieldOf := func(e ast.Expr) string {
+		if s, ok := e.(*ast.SelectorExpr); ok {
+			if id, ok := s.X.(*ast.Ident); ok && id.Name == recv {
+				return s.Sel.Name
+			}
+		}
+		return ""
+	}
+	reset := map[string]bool{}
+	ast.Inspect(fd.Body, func(n ast.Node) bool {
+		if a, ok := n.(*ast.AssignStmt); ok {
+			for i, l := range a.Lhs {
+				f := fieldOf(l)
+				if f == "" {
+					continue
+				}
+				isAppend := false
+				if i < len(a.Rhs) {
+					if c, ok := a.Rhs[i].(*ast.CallExpr); ok {
+						if id, ok := c.Fun.(*ast.Ident); ok && id.Name == "append" && len(c.Args) > 0 && fieldOf(c.Args[0]) == f {
+							isAppend = true
+						}
+					}
+				}
+				if !isAppend {
+					reset[f] = true
+				}
+			}
+		}
+		return true
+	})
+	found := ""
+	ast.Inspect(fd.Body, func(n ast.Node) bool {
+		loop, ok := n.(*ast.ForStmt)
+		if !ok {
+			return true
+		}
+		ast.Inspect(loop.Body, func(m ast.Node) bool {
+			switch x := m.(type) {
+			case *ast.CallExpr:
+				if s, ok := x.Fun.(*ast.SelectorExpr); ok && (s.Sel.Name == "Put" || strings.HasPrefix(s.Sel.Name, "Add")) {
+					if f := fieldOf(s.X); f != "" && !reset[f] && found == "" {
+						found = f
+					}
+				}
+			case *ast.AssignStmt:
+				for i, l := range x.Lhs {
+					if f := fieldOf(l); f != "" && i < len(x.Rhs) && !reset[f] {
+						if c, ok := x.Rhs[i].(*ast.CallExpr); ok {
+							if id, ok := c.Fun.(*ast.Ident); ok && id.Name == "append" && found == "" {
+								found = f
+							}
+						}
+					}
+				}
+			}
+			return true
+		})
+		return true
+	})
+	return found, found != ""
+}
+
 type fprog struct{ fn, term string }
 
 var progs []fprog
@@ -722,6 +836,10 @@ func main() {
 					}
 				}
 				st.block(fd.Body.List, map[string]bool{})
+				st.loopsIn(fd.Body)
+				if f, ok := additiveReader(fd); ok {
+					additive = append(additive, name+":"+f)
+				}
 				if ps := st.prog(fd.Body.List); hasMake(ps) {
 					rel := map[string]bool{}
 					relevant(ps, rel)
@@ -765,6 +883,31 @@ func main() {
 			sep = ""
 		}
 		fmt.Fprintf(&b, "  (%s, %s)%s\n", lit(p.fn), p.term, sep)
+	}
+	b.WriteString("]\n\n")
+	sort.Slice(cloops, func(i, j int) bool {
+		if cloops[i].fn != cloops[j].fn {
+			return cloops[i].fn < cloops[j].fn
+		}
+		return cloops[i].bound < cloops[j].bound
+	})
+	b.WriteString("structure CountLoop where\n  func : String\n  bound : String\n  source : String\n  bodyReads : Bool\nderiving DecidableEq, Repr\n\n")
+	b.WriteString("/-- every `for i < n` loop whose bound `n` carries a decoded value, and whether its body reads from the stream -/\ndef countLoops : List CountLoop := [\n")
+	for i, l := range cloops {
+		sep := ","
+		if i == len(cloops)-1 {
+			sep = ""
+		}
+		fmt.Fprintf(&b, "  ⟨%s, %s, %s, %v⟩%s\n", lit(l.fn), lit(l.bound), lit(l.source), l.reads, sep)
+	}
+	b.WriteString("]\n\n")
+	sort.Strings(additive)
+	b.WriteString("/-- `Read` methods that, in a loop, Put / Add / append into a table of the receiver which the method never\n    assigns afresh (function:field) -/\ndef additiveReaders : List String := [")
+	for i, a := range additive {
+		if i > 0 {
+			b.WriteString(", ")
+		}
+		b.WriteString(lit(a))
 	}
 	b.WriteString("]\n\n")
 	fmt.Fprintf(&b, "/-- `DataInputX.ReadBytes` compares its size with the buffered bytes (and panics) before `make` -/\ndef readBytesChecksBeforeMake : Bool := %v\n\nend Gen.AllocSites\n", readBytesChecked)
